@@ -301,6 +301,11 @@ def _run_aggregate(case, T, rng, g, dtype, base):
     order = _shuffled(rng, keys)
     use_mean = rng.random() < 0.3
     agg = Mean() if use_mean else Probe()
+    # "applies the aggregator" means CALLING it (an nn.Module: registered hooks are part of what the call does): half of the
+    # cases register a forward hook that doubles the aggregated vector
+    hooked = rng.random() < 0.5
+    if hooked:
+        agg.register_forward_hook(lambda mod, inp, out: out * 2.0)
     res = T.Aggregate(agg, order)(T.Jacobians(jacs))
     united = np.concatenate([_np(jacs[k]).reshape(m, -1) for k in order], axis=1)
     n = united.shape[1]
@@ -312,6 +317,8 @@ def _run_aggregate(case, T, rng, g, dtype, base):
                                                 "(in key order) of the matrixified Jacobians", agg.seen, united)
         ar = np.arange(1, n + 1, dtype=np.float64)
         vec = united[0] * ar + united.sum(0) * 0.25 + ar * 0.5
+    if hooked:
+        vec = vec * 2.0
     if type(res) is not T.Gradients or set(map(id, res.keys())) != set(map(id, keys)):
         return _fail(base, "C15.Aggregate", "Aggregate: wrong output type or key set")
     start = 0
